@@ -47,6 +47,16 @@ M = {
    "	if offset < 0 {\n		return errors.Errorf(\"part of len=%d does not fit in buf of len=%d\", len(data), len(c.buf))\n	}\n", "")],
  "c08-mbapp-total-size-not-bounded-by-mtu": [("p/mbapp/swarm.go",
    "	if totalSize > uint32(s.mtu) {\n		return fmt.Errorf(\"total message size exceeds mtu %d\", s.mtu)\n	}", "	_ = fmt.Sprint")],
+ "c09-frag-mtu-test-off-by-one": [("s/fragswarm/fragswarm.go",
+   "	if p2p.VecSize(data) > s.MTU() {", "	if p2p.VecSize(data) >= s.MTU() {")],
+ "c09-frag-overhead-underestimated": [("s/fragswarm/fragswarm.go",
+   "const Overhead = 3 * binary.MaxVarintLen32", "const Overhead = 3 * 2")],
+ "c09-p2pkeswarm-mtu-without-overhead": [("s/p2pkeswarm/swarm.go",
+   "	n := s.inner.MTU() - Overhead", "	n := s.inner.MTU()")],
+ "c09-mux-mtu-ignores-header": [("p/p2pmux/mux.go",
+   "	n := p2p.VecSize(ms.m.muxFunc(ms.cid, nil))\n	return m - n", "	return m - 2")],
+ "c09-mbapp-partsize-off-by-one": [("p/mbapp/swarm.go",
+   "	partSize := (mtu - HeaderSize)\n", "	partSize := (mtu - HeaderSize) + 1\n")],
  "c10-frag-aggkey-without-addr": [("s/fragswarm/fragswarm.go",
    "	key := aggKey{addr: keyForAddr(x.Src), id: id}", "	key := aggKey{id: id}")],
  "c10-mbapp-allset-off-by-one": [("p/mbapp/bitmap.go",
